@@ -11,7 +11,7 @@ META = dict(
     bounds=dict(
         quick="filters F in 1..3, signals S in 1..3, domain points D in {2,3,5}; ranks 1-Dx1-D, 1-Dx2-D, 2-Dx1-D, 2-Dx2-D, one leading "
               "batch axis of size 2 (equal and broadcast 1-vs-2), two leading batch axes; domain symbolic strictly ascending array, symbolic "
-              "scalar dx>0, trapz True/False; integral(): rank 1-3, every axis, keepdims both",
+              "scalar dx>0, concrete integer steps and concrete integer-typed non-uniform domain arrays (int64, int32, uint16, list of int), trapz True/False; integral(): rank 1-3, every axis, keepdims both",
         thorough="as quick with F,S up to 5, D up to 9, batch up to 3"),
     stubs=[],
     assumptions=["real arithmetic (no float rounding)", "shapes beyond the bound are not covered; contents are all reals at once"],
@@ -25,6 +25,13 @@ def _dom(M, nd, kind):
         for k in range(nd - 1):
             M.assume(d[k + 1] > d[k])
         return d, d
+    if kind.startswith("intarr"):
+        # concretely typed integer domain array (e.g. wavelengths from np.arange): non-uniform, odd steps, so half steps are not integers
+        _, dt, vals = kind.split(":")
+        vals = [int(v) for v in vals.split(",")][:nd]
+        assert len(vals) == nd
+        dom = list(vals) if dt == "list" else np.array(vals, dtype=dt)
+        return dom, np.array(vals, dtype=object if M.symbolic else float)
     if kind.startswith("int"):
         # concretely typed integer steps (python int / numpy integer): dtype effects are invisible to a real-valued symbol
         v = int(kind.split(":")[1])
@@ -162,6 +169,12 @@ def cases(tier, seed):
             add(f"2Dx2D F2 S2 D3 {dom} trapz={trapz}", "capture_case", fshape=(2,), sshape=(2,), nd=3, dom=dom, trapz=trapz)
         add(f"1Dx1D D4 {dom}", "capture_case", fshape=(), sshape=(), nd=4, dom=dom, trapz=True)
         add(f"integral shape=(2, 3) axis=1 {dom}", "integral_case", shape=(2, 3), axis=1, dom=dom, keepdims=False)
+    for dom in ("intarr:int64:300,301,304,309,310", "intarr:int32:0,3,4,9,14", "intarr:uint16:400,401,402,403,404", "intarr:list:1,2,5,6,11"):
+        add(f"2Dx2D F2 S2 D5 {dom}", "capture_case", fshape=(2,), sshape=(2,), nd=5, dom=dom, trapz=True)
+        add(f"1Dx1D D2 {dom}", "capture_case", fshape=(), sshape=(), nd=2, dom=dom, trapz=True)
+        add(f"estimator F2 S2 D4 {dom}", "estimator_case", nf=2, ns=2, nd=4, dom=dom)
+        add(f"integral shape=(2, 3) axis=1 {dom}", "integral_case", shape=(2, 3), axis=1, dom=dom, keepdims=False)
+        add(f"linear signals {dom}", "linear_case", nf=2, ns=2, nd=3, dom=dom, which="signals")
     # lower ranks
     for dom, trapz in (("array", True), ("scalar", True), ("scalar", False)):
         add(f"1Dx1D D3 {dom} trapz={trapz}", "capture_case", fshape=(), sshape=(), nd=3, dom=dom, trapz=trapz)
